@@ -53,6 +53,7 @@ class World:
 
     def __init__(self, n):
         self.keep = []  # strong references to everything ever seen (Subset.__del__ broadcasts)
+        self.shared_states = {}  # odd `ss` value -> the one state object shared by all groups given it
         self.data = [Data(x=[1, 2, 3], label='d%i' % i) for i in range(n)]
         self.did = {id(d): i for i, d in enumerate(self.data)}
         self.groups = []
@@ -95,7 +96,15 @@ class World:
                 dc.remove_subset_group(self.groups[op[1]])
         elif k == 'ss':
             if op[1] < ng:
-                self.groups[op[1]].subset_state = ElementSubsetState(indices=[op[2]])
+                # odd values: ONE state object per value, shared by every group that is given it
+                # (`g2.subset_state = g1.subset_state`); even values: a fresh object each time
+                if op[2] % 2 == 1:
+                    if op[2] not in self.shared_states:
+                        self.shared_states[op[2]] = ElementSubsetState(indices=[op[2]])
+                        self.keep.append(self.shared_states[op[2]])
+                    self.groups[op[1]].subset_state = self.shared_states[op[2]]
+                else:
+                    self.groups[op[1]].subset_state = ElementSubsetState(indices=[op[2]])
         elif k == 'sl':
             if op[1] < ng:
                 self.groups[op[1]].label = 'L%i' % op[2]
@@ -494,6 +503,14 @@ class Seq(Family):
         for ops in ([['app', 0], ['app', 1], ['ng'], ['rem', 1], ['app', 1]],
                     [['app', 0], ['ng'], ['ng'], ['rem', 0], ['rg', 0], ['app', 0], ['rst'], ['rem', 0]],
                     [['app', 0], ['ng'], ['seti', 0, 0], ['seti', 0, 0]],
+                    # two groups sharing one state object with equal (not identical) styles / labels
+                    *[[['app', 0], ['ng'], ['ng'], ['ss', 0, 1], ['ss', 1, 1], ['sy', 0, 2], ['sy', 1, 2]] + tail
+                      for tail in ([['app', 1], ['rg', 1], ['rem', 0], ['app', 0]],
+                                   [['sl', 0, 3], ['sl', 1, 3], ['app', 1], ['rg', 0], ['rem', 1], ['app', 1]],
+                                   [['rem', 0], ['app', 0], ['rg', 1], ['app', 1]],
+                                   [['rg', 0], ['app', 1], ['rst'], ['rem', 0]],
+                                   [['rst'], ['app', 1], ['rg', 1]],
+                                   [['ca', 1], ['undo'], ['redo'], ['cr', 0], ['undo']])],
                     [['ext', 0, 1], ['ng'], ['mrg', 0, 1], ['app', 0], ['clr'], ['app', 3]],
                     # F4b-d (C13): undo of RemoveData re-inserts at the recorded position, commands
                     # without effect are undone without effect, a stale position is clamped
